@@ -436,8 +436,8 @@ def session_oracle(sc, obs):
                 sent = 'nothing yet' if d is None or d[0] > out[0] else d[1]
                 return ('c01:session-wrong-outcome',
                         f'call {i} {call}: got {out[1]}; under its id the peer had sent {sent}')
-        elif out and out[1][0] in '!?':
-            return 'c01:session-wrong-outcome', f'call {i} {call}: {out[1]} escaped'
+        # (what a caller that was never answered ends with - cancellation, a time-out, any other
+        # exception - is not this property's business; the model comparison sees its future)
         d = delivered.get(i)
         if d is not None and (out is None or out[0] > d[0]):
             # it was still waiting when the peer's answer arrived
@@ -451,7 +451,8 @@ def session_oracle(sc, obs):
         return ('c01:session-unknown-id-not-rejected',
                 f'{rejected_due} answers to ids that were not outstanding, session.errors = {obs["errors"]}')
     if obs['alive'] is False:
-        return 'c01:session-dead-after-responses', 'a later request was not answered'
+        return ('c01:session-dead-after-responses',
+                'a request made after all this did not complete with the result the peer sent under its id')
     return None
 
 
